@@ -58,6 +58,7 @@ static void fill_input(Operand &o, const uint64_t *vals, uint64_t junk)
     if (o.k < K_ARR_UNIT) return;
     // exact extent: the arena ends at a guard page (ASan build: exact-size malloc): one element past the last designated cell faults
     o.gb.alloc(o.size * sizeof(E)); o.arena = o.gb.as<E>(); o.guarded = true;
+    if (o.gb.failed) return; // (huge sparse arena refused by the system: the caller skips the case)
     if (!o.gb.sparse) for (uint64_t i = 0; i < o.size; i++) o.arena[i].fe = pbt::mix(junk, i);
     else for (int k = 0; k < o.L; k++) for (int d = -1; d <= 1; d++) { uint64_t i = o.pos[k] + (uint64_t)d; if (i < o.size) o.arena[i].fe = pbt::mix(junk, i); } // huge extent: junk next to the designated cells only
     for (int k = 0; k < o.L; k++) o.arena[o.pos[k]].fe = vals[k];
@@ -116,6 +117,7 @@ static bool run_row(const Row &r, const Case &c, uint64_t junk, std::vector<uint
     } else {
     fill_input(A, &c.v[P_AV], junk); fill_input(B, &c.v[P_BV], junk ^ 0xB);
     }
+    if (A.gb.failed || B.gb.failed) { why = "SKIP"; return true; }
     std::vector<uint64_t> a0, b0;
     if (A.arena && !A.gb.sparse) { a0.resize(A.size); for (uint64_t i = 0; i < A.size; i++) a0[i] = A.arena[i].fe; }
     if (B.arena && !B.gb.sparse) { b0.resize(B.size); for (uint64_t i = 0; i < B.size; i++) b0[i] = B.arena[i].fe; }
@@ -123,6 +125,7 @@ static bool run_row(const Row &r, const Case &c, uint64_t junk, std::vector<uint
     const bool csparse = C.k >= K_ARR_UNIT && C.size * sizeof(E) >= ((size_t)1 << 26);
     if (csparse) { // huge output stride: sparse mapping ending at a guard page; sentinels next to the designated cells
         guard = 0; C.gb.alloc(C.size * sizeof(E)); C.arena = C.gb.as<E>(); C.guarded = true;
+        if (C.gb.failed || A.gb.failed || B.gb.failed) { why = "SKIP"; return true; }
         for (int k = 0; k < L; k++) for (int d = -2; d <= 2; d++) { uint64_t i = C.pos[k] + (uint64_t)d; if (i < C.size) C.arena[i].fe = SENT + i; }
     } else if (form == 2) {
         C.arena = A.arena; C.guarded = true; guard = 0; // in place: the designated cells are replaced, every other cell keeps its junk
@@ -130,6 +133,7 @@ static bool run_row(const Row &r, const Case &c, uint64_t junk, std::vector<uint
         guard = 0; C.gb.alloc(C.size * sizeof(E)); C.arena = C.gb.as<E>(); C.guarded = true; for (uint64_t i = 0; i < C.size; i++) C.arena[i].fe = SENT + i;
     } else
     if (C.k >= K_ARR_UNIT) { C.arena = (E *)malloc((C.size + guard) * sizeof(E)); for (uint64_t i = 0; i < C.size + guard; i++) C.arena[i].fe = SENT + i; }
+    if (A.gb.failed || B.gb.failed || C.gb.failed) { why = "SKIP"; return true; } // huge sparse arena refused by the system: no verdict for this case
 #ifdef __AVX512__
     T8 t8;
 #endif
@@ -205,7 +209,9 @@ static bool body_row(const Case &c, Ctx &ctx)
       int f = form_of(r, c); if (f) { nt = true; ctx.cls(FN[f]); } }
     ctx.nontrivial = nt;
     std::vector<uint64_t> o1, o2; std::string why;
+    why.clear();
     if (!run_row(r, c, c.v[P_JUNK], o1, why, true)) return ctx.fail(std::string(r.decl) + " [A=" + KN[r.A] + " B=" + KN[r.B] + " -> " + KN[r.C] + "] sa=" + std::to_string(c.v[P_SA]) + " sb=" + std::to_string(c.v[P_SB]) + " sc=" + std::to_string(c.v[P_SC]) + " form=" + std::to_string(form_of(r, c)) + ": " + why);
+    if (why == "SKIP") { ctx.cls("shape:huge-arena-refused-by-the-system(case-skipped)"); return true; }
     // metamorphic: different junk in the non-designated input cells must not change the result
     if (!run_row(r, c, ~c.v[P_JUNK], o2, why)) return ctx.fail(std::string(r.decl) + ": " + why);
     if (o1 != o2) return ctx.fail(std::string(r.decl) + ": result depends on input cells that its strides do not designate");
@@ -249,7 +255,8 @@ static rc::Gen<std::vector<uint64_t>> gen_row_case(std::vector<int> rows)
         static const std::vector<uint64_t> SI{0, 1, 2, 3, 4, 5, 7, 61, 1000}, SO{1, 2, 3, 4, 5, 7, 61, 1000};
         v[P_SA] = *rc::gen::elementOf(SI); v[P_SB] = *rc::gen::elementOf(SI); v[P_SC] = *rc::gen::elementOf(SO);
         // strides that do not fit 32 bits (sparse arenas): an index computed in 32-bit arithmetic lands on another cell
-        if (*g::irange(0, 15) == 0) { int w = *g::irange(0, 2); uint64_t big = (1ull << 32) + (uint64_t)*g::irange(1, 5);
+        // (PBT_NO_HUGE: set for the valgrind jobs -- memcheck cannot map the sparse 32+ GiB arenas)
+        if (*g::irange(0, 15) == 0 && !getenv("PBT_NO_HUGE")) { int w = *g::irange(0, 2); uint64_t big = (1ull << 32) + (uint64_t)*g::irange(1, 5);
             // also strides whose multiples k*stride (k < L) cross 2^31 or 2^32 although the stride itself fits 32 bits
             static const uint64_t MID[] = {306783379, (1ull << 29) + 1, (1ull << 30) + 3, (1ull << 31) - 1, (1ull << 31) + 5, 0xFFFFFFFFull, 613566757};
             if (*g::irange(0, 1)) big = MID[*g::irange(0, 6)];
